@@ -1507,6 +1507,11 @@ class MacroFunction(Macro):
         input_args is expected to be a list of (original,
         pre-expanded) arguments passed to this.
         """
+        # Arguments missing from the invocation are treated as empty.
+        required = len(self.args) - (1 if self.variadic else 0)
+        while len(input_args) < required:
+            input_args.append(([], []))
+
         # Combine variadic arguments into one, separated by commas
         if self.variadic:
             comma = Punctuator("EXPANSION", -1, False, ",")
